@@ -6,29 +6,9 @@ From PX.Lib Require Import Base PyStr PyInt Regex Xml XmlSer.
 From PX.Gen Require Import MapRegexes.
 From PX.Model Require Import Show Path Segment Syntax MapLoad MapTree Element Units.
 From PX.Spec Require C15_link.
-From PX.Model Require UnitsOut.
+From PX.Model Require Export MapEnv.
+From PX.Model Require UnitsOut UnitsWalk.
 
-Definition menv := list (str * xml).
-
-Fixpoint env_get (e : menv) (name : str) : option xml :=
-  match e with
-  | [] => None
-  | (n, x) :: rest => if str_eqb n name then Some x else env_get rest name
-  end.
-
-Definition env_add (e : menv) (name : str) (ser : str) : option menv :=
-  match parse_xml_ser ser with
-  | Some x => Some ((name, x) :: e)
-  | None => None
-  end.
-
-(* load_map_file(name, param): exclude = param 'exclude_external_codes' ("" = None), charset *)
-Definition load_named (e : menv) (name exclude charset : str) : result xmap :=
-  match env_get e (sl "dataele.xml"), env_get e (sl "codes.xml"), env_get e name with
-  | Some de, Some cd, Some root =>
-      load_map map_regexes de cd (match exclude with [] => None | _ => Some exclude end) charset root
-  | _, _, _ => Raise OtherError
-  end.
 
 Definition show_ostr (o : option str) : str := show_opt show_hex o.
 
@@ -239,6 +219,8 @@ Definition dispatch_env (e : menv) (unit : str) (args : list str) : str :=
   else if str_eqb unit (sl "segvalid") then unit_segvalid e args
   else if str_eqb unit (sl "elevalid") then unit_elevalid e args
   else if str_eqb unit (sl "c15_spec") then unit_c15_spec e args
+  else if str_eqb unit (sl "walk") then UnitsWalk.unit_walk e args
+  else if str_eqb unit (sl "document") then UnitsWalk.unit_document e args
   else if str_eqb unit (sl "html") then UnitsOut.unit_html args
   else if str_eqb unit (sl "xmlout") then UnitsOut.unit_xmlout (fun name => load_named e name [] (sl "B")) args
   else if str_eqb unit (sl "xmlin") then UnitsOut.unit_xmlin args
